@@ -366,7 +366,7 @@ def replay_regressions(prop):
 
 
 def build_evidence(prop, tier, base, summaries, det, wall, sim_wall, n_viol, n_known, jobs):
-    ops, armed, fired, natural, stats, modes, fams, probes = {}, {}, {}, {}, {}, {}, {}, {}
+    ops, armed, fired, natural, stats, modes, fams, probes, feats = {}, {}, {}, {}, {}, {}, {}, {}, {}
     transitions = set()
     digests = set()
     steps = 0
@@ -386,6 +386,9 @@ def build_evidence(prop, tier, base, summaries, det, wall, sim_wall, n_viol, n_k
         modes[s['mode']] = modes.get(s['mode'], 0) + 1
         for f in s['families']:
             fams[f] = fams.get(f, 0) + 1
+        for fl in s.get('features', []):
+            for f in fl:
+                feats[f] = feats.get(f, 0) + 1
         transitions.update(s['transitions'])
         steps += s['steps']
         mutation += s['caller_owned_mutation']
@@ -434,6 +437,7 @@ def build_evidence(prop, tier, base, summaries, det, wall, sim_wall, n_viol, n_k
             'operations_by_kind': ops,
             'run_modes': modes,
             'program_families': fams,
+            'programs_containing_operation': feats,
             'oracle_checks': checked,
             'calls_unchecked_by_relaxation': unchecked,
             'other_counters': other,
